@@ -221,7 +221,7 @@ func (r *SparseReal32Matrix) MdotM(a, b ConstMatrix) Matrix {
   }
   // products are accumulated in r
   for it := r.Iterator(); it.Ok(); it.Next() {
-    it.Get().Reset()
+    it.Get().Set(ConstFloat32(0.0))
   }
   if m == 0 {
     return r
